@@ -300,6 +300,11 @@ def list_len(lst):
 def dict_method(interp, d, name, args, kwargs):
     if isinstance(d, InstanceDict):
         d = d.obj.f
+    from .odmodel import od_method
+    if name in ("move_to_end", "popitem", "pop", "get"):
+        r = od_method(interp, d, name, args, kwargs)
+        if r is not NotImplemented:
+            return r
     if name == "items":
         return DictView(d, "items")
     if name == "values":
@@ -351,9 +356,8 @@ def get_item(interp, o, k, site):
         return Opaque(z3.simplify(o.seq[i]))
     if isinstance(o, (dict, InstanceDict)):
         d = o.obj.f if isinstance(o, InstanceDict) else o
-        if k in d:
-            return d[k]
-        raise PyRaise(ExcVal("KeyError", ident=("key", str(k))))
+        from .odmodel import od_getitem
+        return od_getitem(interp, d, k)
     if isinstance(o, Opaque):
         resp = yield Ev("Op", "getitem", (o, k), site=site)
         ctx.evseq += 1
@@ -364,9 +368,6 @@ def get_item(interp, o, k, site):
         m = o.cls.lookup("__getitem__")
         if m is not None:
             return (yield from interp.call(m, [o, k], {}))
-    from .odmodel import ODict
-    if isinstance(o, ODict):
-        return o.getitem(interp, k)
     raise Unsupported(f"subscript of {o!r}")
 
 
@@ -375,14 +376,11 @@ def set_item(interp, o, k, v):
         o.items[k] = v
         return
     if isinstance(o, dict):
-        o[k] = v
+        from .odmodel import od_setitem
+        od_setitem(interp, o, k, v)
         return
     if isinstance(o, InstanceDict):
         o.obj.f[k] = v
-        return
-    from .odmodel import ODict
-    if isinstance(o, ODict):
-        o.setitem(interp, k, v)
         return
     raise Unsupported(f"item assignment on {o!r}")
     yield
@@ -414,12 +412,10 @@ def contains(interp, container, x):
                 raise Unsupported("symbolic membership")
         return False
     if isinstance(container, dict):
-        return x in container
+        from .odmodel import od_contains
+        return od_contains(interp, container, x)
     if isinstance(container, InstanceDict):
         return x in container.obj.f
-    from .odmodel import ODict
-    if isinstance(container, ODict):
-        return container.contains(interp, x)
     raise Unsupported(f"membership in {container!r}")
     yield
 
@@ -444,6 +440,12 @@ def call_builtin(interp, name, args, kwargs, site):
         if isinstance(f, CMMethod):
             return AwaitifyWrapped(f)
         raise Unsupported(f"awaitify({f!r})")
+    if name == "contract.callkey":
+        # CallKey.from_call(args, kwds, typed=...) for the call shapes the jobs use: one positional user argument
+        a, kw = args[0], args[1]
+        if isinstance(a, tuple) and len(a) == 1 and isinstance(a[0], Opaque) and not kw:
+            return a[0]
+        raise Unsupported("call pattern outside the contract of the cache-logic jobs")
     if name == "contract.async_bool":
         return UserAwaitable(("ret", mk_bool(to_bool(ctx, args[0]))), ctx.evseq, None)
     if name == "contract.aiter":
@@ -629,9 +631,6 @@ def call_builtin(interp, name, args, kwargs, site):
             return list_len(v)
         if isinstance(v, STuple):
             return mk_int(z3.Length(v.seq))
-        from .odmodel import ODict
-        if isinstance(v, ODict):
-            return v.length()
         if isinstance(v, Obj):
             m = v.cls.lookup("__len__")
             if m is not None:
@@ -739,7 +738,7 @@ def call_builtin(interp, name, args, kwargs, site):
         return (yield from heap_op(interp, name.split(".")[1], args, site))
     if name == "OrderedDict" or name == "collections.OrderedDict":
         from .odmodel import ODict
-        return ODict(interp.ctx, ordered=True)
+        return ODict()
     if name in ("print", "noop"):
         return None
     if name in ("str", "repr"):
